@@ -11,10 +11,28 @@ clock at 2^64−1 as C05, see `C08_once_counterexample`):
 
     theorem C08_once (qs : List QueryMsg) :
         (runQ re cfg (Buf.start N c m) qs).2.1.Nodup
+
+Hypotheses that stay, and why:
+* `NoWrap` (at-most-once and the "only if" of the history-level iff theorems):
+  necessary — `C08_once_counterexample`, replayed on a real node on every run.
+* `0 < N < 2^64`: `QueryBuffer = 0` makes the real code divide by zero; `len` is an `int`.
+* the regex engine and the msgpack decoder are parameters (`re`, the `Filter` type);
+  every theorem is for every oracle, the differential uses Go's own engine and decoder.
+Everything else (deliver / ack / re-broadcast iff, routing for every name, a fresh
+query is first-in-window) carries no hypothesis.
+
+Regenerated ties: `Gen/BufHandler` (the body of `handleQuery`, translated and proved
+equal to the model), `Gen/BufLocks` (lock region), `Gen/InternalQueries` (stream and
+switch shape), `Gen/FilterLoop` (listing of `shouldProcessQuery`), `Gen/Lamport`.
 -/
 import SerfProofs.Lemmas.EventBuf
+import SerfProofs.Props.C05
 import SerfModel.Model.QueryHandle
 import SerfModel.Gen.BufLocks
+import SerfModel.Gen.BufHandler
+import SerfModel.Gen.InternalQueries
+import SerfModel.Gen.FilterLoop
+import SerfProofs.Lemmas.BufHandlerIR
 namespace SerfProofs.C08
 open SerfModel SerfModel.Atomic SerfModel.EventBuf SerfModel.QueryHandle SerfProofs.EventBuf
 
@@ -194,5 +212,245 @@ theorem C08_internal_hidden (evs : List AppEv) :
 /-- Source-tied obligation: `handleQuery` runs its whole check-and-record section under the exclusive
 `queryLock`, which makes the sequential model's step one atomic action under concurrent deliveries. -/
 theorem C08_handler_holds_lock : SerfModel.Gen.BufLocks.handleQuery.wholeBodyExclusive = true := by decide
+
+/-- **Deliver ⇔ first seen in the window ∧ selected** — no hypothesis. -/
+theorem C08_delivered_iff (b : Buf Nat) (q : QueryMsg) :
+    (handleQuery re cfg b q).2.delivered = true ↔
+      (firstInWindow b q ∧ ∀ f ∈ q.filters, passes re cfg f = true) := by
+  by_cases hf : firstInWindow b q
+  · rw [C08_deliver_iff re cfg b q hf]; simp [hf]
+  · have := (C08_not_first_nothing re cfg b q hf).1
+    simp [this, hf]
+
+theorem runQ_buf (qs : List QueryMsg) (b : Buf Nat) :
+    (runQ re cfg b qs).1 = (SerfModel.EventBuf.run b (asIns qs)).1 := (runQ_sublist re cfg qs b).1
+
+/-- **After any history of queries (no time 2^64−1): delivered ⇔ the query is not
+below the cut-off, inside the window, its (time, id) was not recorded before, and
+every filter selects the node.**  "Recorded before" is `deliveries … (asIns qs)`:
+the (time, id) pairs the node accepted as first-seen, whatever their filters said. -/
+theorem C08_delivered_iff_history_partial (N : Nat) (hN : 0 < N) (hN2 : N < 2 ^ 64) (c m : W)
+    (qs : List QueryMsg) (hnw : NoWrap (asIns qs)) (q : QueryMsg) :
+    (handleQuery re cfg (runQ re cfg (Buf.start N c m) qs).1 q).2.delivered = true ↔
+      (¬ q.lt < (runQ re cfg (Buf.start N c m) qs).1.minTime
+       ∧ ¬ q.lt.toNat + N < (witness (runQ re cfg (Buf.start N c m) qs).1.clock q.lt).toNat
+       ∧ (q.lt, q.id) ∉ deliveries (Buf.start N c m) (asIns qs)
+       ∧ ∀ f ∈ q.filters, passes re cfg f = true) := by
+  rw [C08_delivered_iff, runQ_buf]
+  unfold firstInWindow
+  rw [SerfProofs.C05.C05_delivered_iff_history_partial N hN hN2 c m (asIns qs) hnw q.lt q.id]
+  simp only [and_assoc]
+
+/-- **After any history: re-broadcast ⇔ not below the cut-off ∧ inside the window ∧
+not recorded before ∧ re-broadcast not disabled** — the filters do not occur. -/
+theorem C08_rebroadcast_iff_history_partial (N : Nat) (hN : 0 < N) (hN2 : N < 2 ^ 64) (c m : W)
+    (qs : List QueryMsg) (hnw : NoWrap (asIns qs)) (q : QueryMsg) :
+    (handleQuery re cfg (runQ re cfg (Buf.start N c m) qs).1 q).2.rebroadcast = true ↔
+      (¬ q.lt < (runQ re cfg (Buf.start N c m) qs).1.minTime
+       ∧ ¬ q.lt.toNat + N < (witness (runQ re cfg (Buf.start N c m) qs).1.clock q.lt).toNat
+       ∧ (q.lt, q.id) ∉ deliveries (Buf.start N c m) (asIns qs)
+       ∧ q.noBroadcast = false) := by
+  rw [C08_rebroadcast_iff, runQ_buf]
+  unfold firstInWindow
+  rw [SerfProofs.C05.C05_delivered_iff_history_partial N hN hN2 c m (asIns qs) hnw q.lt q.id]
+  simp only [and_assoc]
+
+/-- A first-time query inside the window is recorded, whatever the history (all
+64-bit times): if its (time, id) was not recorded before it is first-in-window —
+so it is delivered iff selected and re-broadcast iff not disabled. -/
+theorem C08_fresh_first (N : Nat) (hN2 : N < 2 ^ 64) (c m : W) (qs : List QueryMsg) (q : QueryMsg)
+    (hfirst : (q.lt, q.id) ∉ deliveries (Buf.start N c m) (asIns qs))
+    (hmin : ¬ q.lt < (runQ re cfg (Buf.start N c m) qs).1.minTime)
+    (hwin : ¬ q.lt.toNat + N < (witness (runQ re cfg (Buf.start N c m) qs).1.clock q.lt).toNat) :
+    firstInWindow (runQ re cfg (Buf.start N c m) qs).1 q := by
+  unfold firstInWindow
+  rw [runQ_buf] at hmin hwin ⊢
+  exact SerfProofs.C05.C05_fresh_delivered N hN2 c m (asIns qs) q.lt q.id hfirst hmin hwin
+
+-- non-vacuity: after the query (5, id 9) a second, different query at the same time is
+-- first-in-window; the repeat is not.
+example : firstInWindow (runQ exRe exCfg (Buf.start 4 1#64 0#64) [exQ1]).1 { exQ1 with id := 10 } := by
+  unfold firstInWindow; decide
+example : ¬ firstInWindow (runQ exRe exCfg (Buf.start 4 1#64 0#64) [exQ1]).1 exQ1 := by
+  unfold firstInWindow; decide
+
+/-- **Source tie (regenerated on every run): the body of `handleQuery`.** The
+translation of the function body in serf/serf.go: the same front half as
+`handleUserEvent` with `slices.Contains(seen.QueryIDs, query.ID)` as duplicate
+test, then `rebroadcast := !query.NoBroadcast()`, the filter test returning
+`rebroadcast`, the ack under `query.Ack()`, the delivery, `return rebroadcast` —
+in this order. -/
+theorem C08_gen_handler_body :
+    SerfModel.Gen.BufHandler.handleQuery = SerfProofs.BufHandlerIR.queryBody := by decide
+
+/-- **The translated body IS the model**: interpreting the regenerated body of
+`handleQuery` (with the filter verdict and the two flags of the message as
+context) yields exactly `QueryHandle.handleQuery` — buffer, return value
+(re-broadcast), delivery and ack.  Moving the ack in front of the filter test,
+returning `false` for unselected queries, dropping the `!` of the no-broadcast
+flag or editing a guard changes the generated body and breaks this obligation. -/
+theorem C08_handler_body_is_model (b : Buf Nat) (q : QueryMsg) :
+    let ctx : SerfModel.BufHandlerIR.Ctx :=
+      { selected := shouldProcess re cfg q.filters, ackFlag := q.ack, noBroadcast := q.noBroadcast }
+    let r := SerfModel.BufHandlerIR.run SerfModel.Gen.BufHandler.handleQuery ctx b q.lt q.id
+    let m := handleQuery re cfg b q
+    r.1.buf = m.1 ∧ r.2 = m.2.rebroadcast ∧ r.1.delivered = m.2.delivered ∧ r.1.acked = m.2.acked := by
+  rw [C08_gen_handler_body]
+  exact SerfProofs.BufHandlerIR.queryBody_is_handleQuery re cfg b q
+
+/-! ### Internal-query routing, over every name, on the regenerated shape of
+`serfQueries.stream` and of the switch of `serfQueries.handleQuery`. -/
+section routing
+open SerfModel.Gen
+
+/-- **Source tie (regenerated on every run).** The `inCh` arm of `stream` tests
+`e.(*Query)` and `strings.HasPrefix(q.Name, InternalQueryPrefix)`, its internal branch
+is exactly `go s.handleQuery(q)` (nothing is sent on `outCh`), its other branch forwards;
+`handleQuery` switches on the name without the prefix and its default branch only logs;
+the prefix constant is the model's `internalPrefix`. -/
+theorem C08_gen_routing_shape :
+    shapesUnderstood InternalQueries.stream InternalQueries.switch = true
+    ∧ InternalQueries.stream.prefixConst = internalPrefix := by decide
+
+/-- The six internal queries and the handler each one reaches. -/
+theorem C08_gen_routing_cases : InternalQueries.switch.cases =
+    [("ping", ""), ("conflict", "handleConflict"), ("install-key", "handleInstallKey"),
+     ("use-key", "handleUseKey"), ("remove-key", "handleRemoveKey"), ("list-keys", "handleListKeys")] := by decide
+
+/-- **Every name: forwarded to the application ⇔ not (a query whose name has the
+internal prefix).**  In particular an UNKNOWN name with the prefix is never
+forwarded, and no name without the prefix is ever swallowed. -/
+theorem C08_route_app_iff (isQuery : Bool) (name : String) :
+    route InternalQueries.stream InternalQueries.switch isQuery name = .app
+      ↔ ¬ (isQuery = true ∧ hasPrefix internalPrefix name = true) := by
+  have hs := C08_gen_routing_shape
+  unfold route
+  rw [hs.1, hs.2]
+  by_cases h : (isQuery && hasPrefix internalPrefix name) = true
+  · simp only [Bool.not_true, Bool.false_eq_true, ↓reduceIte, h]
+    have h' : isQuery = true ∧ hasPrefix internalPrefix name = true := by simpa using h
+    constructor
+    · intro hr; split at hr <;> cases hr
+    · intro hn; exact absurd h' hn
+  · simp only [Bool.not_true, Bool.false_eq_true, ↓reduceIte, h, true_iff]
+    intro h'
+    exact h (by simp [h'.1, h'.2])
+
+/-- **A query with the internal prefix is consumed**: it reaches one of the six
+handlers when the rest of its name is one of the six constants, and is dropped
+(logged as unhandled) otherwise — for every name. -/
+theorem C08_internal_consumed (name : String) (h : hasPrefix internalPrefix name = true) :
+    (∃ hd, route InternalQueries.stream InternalQueries.switch true name = .handler hd
+        ∧ (String.ofList (name.toList.drop internalPrefix.length), hd) ∈ InternalQueries.switch.cases)
+    ∨ (route InternalQueries.stream InternalQueries.switch true name = .dropped
+        ∧ ∀ p ∈ InternalQueries.switch.cases, p.1 ≠ String.ofList (name.toList.drop internalPrefix.length)) := by
+  have hs := C08_gen_routing_shape
+  unfold route
+  rw [hs.1, hs.2]
+  simp only [Bool.not_true, Bool.false_eq_true, ↓reduceIte, h, Bool.true_and]
+  cases hl : alookup InternalQueries.switch.cases (String.ofList (name.toList.drop internalPrefix.length)) with
+  | some hd =>
+    left
+    refine ⟨hd, rfl, ?_⟩
+    unfold alookup at hl
+    cases hf : List.find? (fun p => p.1 == String.ofList (name.toList.drop internalPrefix.length)) InternalQueries.switch.cases with
+    | none => simp [hf] at hl
+    | some p =>
+      simp only [hf, Option.map_some, Option.some.injEq] at hl
+      have hm := List.mem_of_find?_eq_some hf
+      have hp := List.find?_some hf
+      have : p.1 = String.ofList (name.toList.drop internalPrefix.length) := by simpa using hp
+      rw [← this, ← hl]
+      exact hm
+  | none =>
+    right
+    refine ⟨rfl, ?_⟩
+    intro p hp heq
+    unfold alookup at hl
+    have : List.find? (fun p => p.1 == String.ofList (name.toList.drop internalPrefix.length)) InternalQueries.switch.cases = none := by
+      cases hf : List.find? (fun p => p.1 == String.ofList (name.toList.drop internalPrefix.length)) InternalQueries.switch.cases with
+      | none => rfl
+      | some q => simp [hf] at hl
+    have := List.find?_eq_none.1 this p hp
+    simp [heq] at this
+
+-- non-vacuity / examples: a known internal query, an unknown one, the bare prefix, near misses
+example : route InternalQueries.stream InternalQueries.switch true "_serf_conflict" = .handler "handleConflict" := by decide
+example : route InternalQueries.stream InternalQueries.switch true "_serf_ping" = .handler "" := by decide
+example : route InternalQueries.stream InternalQueries.switch true "_serf_zz" = .dropped := by decide
+example : route InternalQueries.stream InternalQueries.switch true "_serf_" = .dropped := by decide
+example : route InternalQueries.stream InternalQueries.switch true "_serf" = .app := by decide
+example : route InternalQueries.stream InternalQueries.switch true "x_serf_ping" = .app := by decide
+example : route InternalQueries.stream InternalQueries.switch false "_serf_ping" = .app := by decide
+
+/-- What the application sees of the node's event channel is exactly what the
+regenerated routing forwards (`forwardedToApp` is `route … = .app`, event by event). -/
+theorem C08_forwarded_is_route (evs : List AppEv) :
+    forwardedToApp evs = evs.filter (fun e => match e with
+      | .query _ name => route InternalQueries.stream InternalQueries.switch true name == .app
+      | .other _ => route InternalQueries.stream InternalQueries.switch false "" == .app) := by
+  unfold forwardedToApp
+  apply List.filter_congr
+  intro e _
+  cases e with
+  | query lt name =>
+    by_cases h : hasPrefix internalPrefix name = true
+    · have : route InternalQueries.stream InternalQueries.switch true name ≠ .app := by
+        rw [Ne, C08_route_app_iff]; simp [h]
+      simp [AppEv.isInternalQuery, h, this]
+    · have : route InternalQueries.stream InternalQueries.switch true name = .app := by
+        rw [C08_route_app_iff]; simp [h]
+      simp [AppEv.isInternalQuery, h, this]
+  | other t =>
+    have : route InternalQueries.stream InternalQueries.switch false "" = .app := by
+      rw [C08_route_app_iff]; simp
+    simp [AppEv.isInternalQuery, this]
+
+/-- The query reaches the APPLICATION: `handleQuery` sends it on the node's event
+channel and `serfQueries.stream` (regenerated shape) forwards it. -/
+def appReceives (b : Buf Nat) (q : QueryMsg) : Bool :=
+  (handleQuery re cfg b q).2.delivered
+    && (route InternalQueries.stream InternalQueries.switch true q.name == .app)
+
+/-- **The application receives a query ⇔ it is first seen in the window, every filter
+selects the node, and its name does not carry the internal prefix** — for every
+name, known internal query or not. -/
+theorem C08_app_receives_iff (b : Buf Nat) (q : QueryMsg) :
+    appReceives re cfg b q = true ↔
+      (firstInWindow b q ∧ (∀ f ∈ q.filters, passes re cfg f = true) ∧ hasPrefix internalPrefix q.name = false) := by
+  unfold appReceives
+  rw [Bool.and_eq_true, C08_delivered_iff, beq_iff_eq, C08_route_app_iff]
+  simp [and_assoc]
+
+example : appReceives exRe exCfg (Buf.init 4) exQ1 = true := by decide
+example : appReceives exRe exCfg (Buf.init 4) { exQ1 with name := "_serf_anything" } = false := by decide
+
+end routing
+
+/-- **Source tie (regenerated on every run): `shouldProcessQuery`.**  The canonical
+listing of the function (log lines stripped): an empty entry returns false; the
+switch is on the first byte; a node filter decodes `filter[1:]` and requires
+`slices.Contains(nodes, s.config.NodeName)`; a tag filter decodes `filter[1:]`, reads
+`tags[filt.Tag]` with the ONE-value map form (missing tag = empty string), returns
+false when the pattern does not compile or does not match; any other type returns
+false; after the loop `return true`.  This is the loop `QueryHandle.shouldProcess`
+models (`shouldProcess_eq_all`: = every filter `passes`). -/
+theorem C08_gen_filter_loop :
+    SerfModel.Gen.FilterLoop.loopVar = "filter"
+    ∧ SerfModel.Gen.FilterLoop.beforeSwitch = ["if len(filter) == 0 { return false }"]
+    ∧ SerfModel.Gen.FilterLoop.switchTag = "filterType(filter[0])"
+    ∧ SerfModel.Gen.FilterLoop.cases =
+      [("filterNodeType", ["var nodes filterNode",
+          "if err := decodeMessage(filter[1:], &nodes); err != nil { return false }",
+          "found := slices.Contains(nodes, s.config.NodeName)",
+          "if !found { return false }"]),
+       ("filterTagType", ["var filt filterTag",
+          "if err := decodeMessage(filter[1:], &filt); err != nil { return false }",
+          "tags := s.config.Tags",
+          "matched, err := regexp.MatchString(filt.Expr, tags[filt.Tag])",
+          "if err != nil { return false }",
+          "if !matched { return false }"])]
+    ∧ SerfModel.Gen.FilterLoop.defaultCase = ["return false"]
+    ∧ SerfModel.Gen.FilterLoop.afterLoop = "return true" := by decide
 
 end SerfProofs.C08
